@@ -9,6 +9,8 @@ import (
 	"sort"
 	"strings"
 
+	"github.com/ethereum/go-ethereum/common"
+	ethcrypto "github.com/ethereum/go-ethereum/crypto"
 	"github.com/rigochain/rigo-go/libs/verifhook"
 	rcrypto "github.com/rigochain/rigo-go/types/crypto"
 	abcitypes "github.com/tendermint/tendermint/abci/types"
@@ -229,6 +231,47 @@ func (n *Node) RunBlock(b *BlockSpec) *BlockObs {
 	}
 	for _, t := range b.Txs {
 		o.Delivers = append(o.Delivers, n.Deliver(t.Spec.Type, t.Bytes))
+	}
+	o.ValUpdates, o.EndEvts, o.EndPanic = n.End(b.Height)
+	if o.EndPanic != "" {
+		return o
+	}
+	o.AppHash, o.CommitPanic = n.Commit()
+	o.TreeOps, o.Writes = lastTreeOps, lastWrites
+	if o.CommitPanic == "" {
+		o.Frozen = n.FrozenStakes()
+	}
+	return o
+}
+
+// runBlockObserving is RunBlock for replays: transactions that carried an observed EVM effect get
+// the effect this node shows
+func (n *Node) runBlockObserving(b *BlockSpec, watch [][]byte) *BlockObs {
+	o := &BlockObs{}
+	o.Issued, o.BeginEvts, o.BeginPanic = n.Begin(b)
+	if o.BeginPanic != "" {
+		return o
+	}
+	for _, t := range b.Txs {
+		d := n.Deliver(t.Spec.Type, t.Bytes)
+		o.Delivers = append(o.Delivers, d)
+		if t.Evm != nil && d.Panic == "" {
+			e := &EvmEffect{OK: d.Code == 0, Gas: d.GasUsed}
+			if d.Code == 0 {
+				e.Created = t.Evm.Created
+				if e.Created == nil && t.Spec.Type == 6 && isZero(t.Spec.To) {
+					created := ethcrypto.CreateAddress(common.BytesToAddress(t.Spec.From), t.Spec.Nonce)
+					e.Created = created[:]
+				}
+				ac := n.App.VerifAcctCtrler()
+				for _, a := range watch {
+					if acct := ac.FindAccount(a, true); acct != nil {
+						e.Accts = append(e.Accts, AcctObs{Addr: a, Bal: acct.GetBalance().Dec(), Nonce: acct.GetNonce()})
+					}
+				}
+			}
+			t.Evm = e
+		}
 	}
 	o.ValUpdates, o.EndEvts, o.EndPanic = n.End(b.Height)
 	if o.EndPanic != "" {
